@@ -4,6 +4,13 @@
 pub assume_specification<T: std::cmp::Ord + std::marker::Destruct> [std::cmp::max](a: T, b: T) -> (r: T)
     ensures T::obeys_cmp_spec() ==> r == (if a.cmp_spec(&b) is Greater { a } else { b });
 
+/// std `Result::unwrap_or` / `Result::inspect_err` (their definitions; the closure of inspect_err only observes the error)
+pub assume_specification<T, E>[Result::<T, E>::unwrap_or](r: std::result::Result<T, E>, default: T) -> (out: T)
+    ensures out == (match r { Ok(v) => v, Err(_) => default });
+pub assume_specification<T, E, F: FnOnce(&E)>[Result::<T, E>::inspect_err](r: std::result::Result<T, E>, f: F) -> (out: std::result::Result<T, E>)
+    requires r is Err ==> call_requires(f, (&r->Err_0,)),
+    ensures out == r;
+
 #[verifier::external_body]
 pub struct OsStr { x: u8 }
 
